@@ -184,7 +184,9 @@ DecLexical(fd) == {T("1"), T("+1.5"), T("-0.0"), T("1."), T(".5"), T("1e1"), T("
 StrLenProbes(t, mb) ==
   LET ns == UNION {UNION {{t.ll[i].parts[j].lo, t.ll[i].parts[j].hi} : j \in 1..Len(t.ll[i].parts)} : i \in 1..Len(t.ll)}
       small == {n \in 0..20 : \E x \in ns : x \in {Nat2Num(n), Nat2Num(n + 1)} \/ (n > 0 /\ x = Nat2Num(n - 1))}
-  IN {Rp(n, ca) : n \in small \cup {9, 17}} \cup (IF mb THEN {Rp(n, ce) : n \in small} \cup {Rp(n, 128512) : n \in small} ELSE {})
+      \* multi-byte strings whose number of characters, or whose number of bytes (2, 3, 4 per character), lies at a bound
+      mbs == UNION {{Rp(k, ch[1]) : k \in {k \in 1..21 : k \in small \/ k * ch[2] \in small}} : ch \in {<<ce, 2>>, <<26085, 3>>, <<128512, 4>>}}
+  IN {Rp(n, ca) : n \in small \cup {9, 17}} \cup (IF mb THEN mbs \cup {<<ca>> \o m : m \in {m \in mbs : Len(m) <= 3}} ELSE {})
 \* the probe lexemes of a compiled type; rich adds lexical variants and multi-byte strings
 RECURSIVE ProbeSet(_, _)
 ProbeSet(t, rich) ==
@@ -458,7 +460,7 @@ RandGrow(ch, more) ==
                  ELSE IF t.k = "string" THEN [Lv0 EXCEPT !.len = IF Coin(3) THEN << >> ELSE RandLenParts(0), !.pats = IF Coin(2) THEN << >> ELSE <<Pat(RandOf(AllPats), "", "")>>]
                  ELSE Lv0
            L2 == IF ~Coin(4) THEN L1
-                 ELSE IF t.k \in NumKinds THEN WithDef(L1, ShowFor(t, RandomElement(Pool(t)))) ELSE WithDef(L1, RandStr(FALSE))
+                 ELSE IF t.k \in NumKinds THEN WithDef(L1, ShowFor(t, RandomElement(Pool(t)))) ELSE WithDef(L1, RandStr(TRUE))
        IN RandGrow([ch EXCEPT !.levels = Append(@, L2)], more - 1)
 RandKinds == <<"int8", "uint8", "int16", "uint16", "int32", "uint32", "int64", "uint64", "decimal64", "decimal64", "string", "string">>
 RandChainK(k) ==
@@ -586,6 +588,39 @@ BigFam(r) ==
     [] r = 3 -> {Chain("string", <<Pt([i \in 1..20 |-> P0(ReRep(ReCls(TRUE, <<<<100 + i, 100 + i>>>>), 0, -1))]), Pt(<<P0(ReM1), P0(ReDot23)>>)>>)}
     [] r = 4 -> {[k |-> "identityref", mod |-> m, lay |-> "top", idents |-> BigIdents(90), levels |-> <<[Lv0 EXCEPT !.idbase = [m |-> "a", n |-> "big0"]]>>] : m \in {"a", "b"}}
     [] OTHER -> {}
+\* ------------------------------------------------------------------ every probe lexeme as a default (fam 12200 + r)
+\* whatever value classes probe Validate (multi-byte strings against lower bounds and gaps, boundary lexemes and lexical
+\* variants of the numeric types, anchoring probes of patterns, enum / identity names ...) also appear as default
+\* statement at every level of the chain: typedef default, leaf default, inherited through the narrower levels
+DefBases == <<
+  Chain("string", <<Ln(<<P2(c6, c8)>>)>>),
+  Chain("string", <<Ln(<<P2(c2, c3)>>), Lv0>>),
+  Chain("string", <<Ln(<<P2(c0, c2), P2(c4, c6)>>), Ln(<<P2(c1, c2), P2(c6, MaxT)>>)>>),
+  Chain("string", <<Ln(<<P2(c1, c8)>>), Ln(<<P2(c4, c6)>>), Lv0>>),
+  Chain("string", <<Lv0, Ln(<<P2(c3, c4)>>), Pt(<<P0(ReDot23)>>)>>),
+  Chain("string", <<Pt(<<P0(ReM1)>>), Ln(<<P2(c2, c3)>>)>>),
+  Chain("string", <<Pt(<<P0(ReM2)>>), Pt(<<P0(ReNotB)>>)>>),
+  Chain("string", <<Pt(<<P0(ReAltABorC)>>), Ln(<<P2(c1, c2)>>)>>),
+  Chain("string", <<Pt(<<P0(ReE)>>), Lv0, Ln(<<P1(c2)>>)>>),
+  Chain("int8", <<Rg(<<P2(c1, c5), P2(c7, c9)>>), Rg(<<P2(c2, c8)>>)>>),
+  Chain("uint64", <<Rg(<<P2(MinT, c5), P2(c7, MaxT)>>), Lv0, Rg(<<P2(c9, MaxT)>>)>>),
+  Chain("int64", <<Lv0, Rg(<<P2(ShowNum(Dec(Dec(WidthOf("int64").hi))), ShowNum(Dec(WidthOf("int64").hi)))>>)>>),
+  Chain("uint8", <<Lv0, Lv0>>),
+  [Chain("decimal64", <<Rg(<<P2(T("1.5"), T("2.5"))>>), Rg(<<P2(T("2"), T("2.25"))>>)>>) EXCEPT !.levels[1].fd = 2],
+  [Chain("decimal64", <<Lv0, Rg(<<P2(MinT, T("-0.1")), P2(T("0.1"), MaxT)>>)>>) EXCEPT !.levels[1].fd = 1],
+  Chain("enumeration", <<En(Lv0), Lv0>>),
+  Chain("boolean", <<Lv0, Lv0>>),
+  Chain("union", <<Un(U1), Lv0>>),
+  Chain("union", <<Un(U3)>>),
+  IdCh("a", "a", "b0", <<Lv0>>),
+  IdCh("b", "a", "udp", << >>) >>
+DefProbeFam(r) ==
+  LET ch == DefBases[r]
+      n == Len(ch.levels)
+      pre(i) == CompileChain([ch EXCEPT !.levels = SubSeq(@, 1, i)])
+      vs == UNION {IF pre(i).ok THEN ProbeSet(pre(i).t, TRUE) ELSE {} : i \in 1..n}
+  IN {[ch EXCEPT !.levels[i] = WithDef(@, v)] : i \in 1..n, v \in vs}
+     \cup {[ch EXCEPT !.levels = <<WithDef(@[1], v)>> \o SubSeq(@, 2, n) \o <<Lv0>>] : v \in vs}
 \* ------------------------------------------------------------------ family table
 \* the chains of an exhaustive family (group = fam \div 1000)
 ChainsOf(fam, maxd) ==
@@ -599,7 +634,7 @@ ChainsOf(fam, maxd) ==
     [] g = 7 -> (CASE r = 1 -> KindFam [] r = 2 -> OtherDefFam [] OTHER -> LayoutFam)
     [] g = 8 -> (CASE r \in 1..8 -> DirectIntFam(r) [] r \in 11..16 -> DirectDecFam(r - 10) [] r = 20 -> DirectStrFam [] r = 21 -> DirectOtherFam [] OTHER -> MsgFam)
     [] g = 12 -> (CASE r < 10 -> HugeGapFam(r) [] r = 10 -> HugeLenFam [] r \in 21..28 -> LimitIntFam(r - 20) [] r = 30 -> LimitLenFam
-                    [] r \in 41..46 -> LimitDecFam(r - 40) [] OTHER -> DefNarrowFam(r - 100))
+                    [] r \in 41..46 -> LimitDecFam(r - 40) [] r \in 101..199 -> DefNarrowFam(r - 100) [] OTHER -> DefProbeFam(r - 200))
     [] g = 13 -> BigFam(r)
     [] OTHER -> {}
 \* group 8 (directly constructed types) is probed with lexical variants and multi-byte strings
